@@ -114,23 +114,43 @@ def _assign_case(seed):
     isoforms = H.make_gene(rng, 1 if single else None)
     gi = H.gene_info_of(isoforms, params.delta)
     tid, strand, exons = rng.choice(isoforms)
-    kind = rng.choice(["exact", "truncated", "jitter", "intron_retention", "skipped_exon", "novel_exon", "partial_intron_retention"])
+    kind = rng.choice(["exact", "truncated", "jitter", "intron_retention", "skipped_exon", "novel_exon", "partial_intron_retention",
+                       "distant_5p_end"])
     if kind == "skipped_exon":
         big = [i for i in range(1, len(exons) - 1) if exons[i][1] - exons[i][0] >= 150]
         if not big:
             return None, []
         read = exons[:big[0]] + exons[big[0] + 1:]
+    elif kind == "distant_5p_end":
+        # all of T's introns, but the 5' end lies 300-900 bp outside T's terminal exon (10x the terminal tolerance and more)
+        far = rng.randint(300, 900)
+        read = list(exons)
+        if strand == "+":
+            if exons[0][0] - far < 1:
+                return None, []
+            read[0] = (exons[0][0] - far, exons[0][1])
+        else:
+            read[-1] = (exons[-1][0], exons[-1][1] + far)
     else:
         read = H.derive_read(rng, exons, kind, params.delta if matching != "exact" else 0)
+    # a polyA tail at the read's 3' end (polyT head for a '-' isoform): documented as tolerated; it must not turn a distant 5' end or any
+    # other structural difference into a consistent assignment either
+    polya = (-1, -1, -1, -1)
+    tail = rng.random() < .5 and read is not None and kind in ("exact", "jitter", "distant_5p_end", "intron_retention", "skipped_exon", "novel_exon")
+    if tail:
+        if strand == "+":
+            polya = (read[-1][1] - rng.randint(0, 3), -1, -1, -1)
+        else:
+            polya = (-1, read[0][0] + rng.randint(0, 3), -1, -1)
     if read is None or len(read) < 2 and kind not in ("truncated", "partial_intron_retention"):
         return None, []
     if kind == "truncated" and len(read) < 2:
         return None, []
-    ra, info = H.assign(gi, params, read)
+    ra, info = H.assign(gi, params, read, polya)
     t = ra.assignment_type.name
     reported = [m.assigned_transcript for m in ra.isoform_matches]
     events = sorted({e.event_type.name for m in ra.isoform_matches for e in m.match_subclassifications})
-    desc = {"matching": matching, "kind": kind, "isoform": tid, "n_isoforms": len(isoforms), "read": read, "type": t,
+    desc = {"matching": matching, "kind": kind, "tail": polya, "isoform": tid, "n_isoforms": len(isoforms), "read": read, "type": t,
             "reported": reported, "events": events}
     problems = []
     if kind in ("exact", "truncated", "jitter"):
@@ -155,8 +175,8 @@ def replay_assign(d):
 @bounded("C01.assigner_end_to_end", ["C01"], note="random genes (1-3 isoforms over a shared exon pool) and reads derived from an isoform: "
          "exact, truncated at either end, junctions jittered within delta -> the real LongReadAssigner must report a consistent type, the "
          "isoform among the matches when the read is full-length, and a unique assignment when it is the only isoform; reads with a "
-         "retained intron (>= 300 bp), >= 100 intronic bases retained at a read end, a skipped exon (>= 150 bp) or an extra exon relative to the only isoform must never be consistent; "
-         "all four matching presets")
+         "retained intron (>= 300 bp), >= 100 intronic bases retained at a read end, a 5' end 300-900 bp outside the isoform, a skipped exon (>= 150 bp) or an extra exon relative to the only isoform must never be consistent; "
+         "all four matching presets; half of the full-length reads carry a polyA tail / polyT head at their 3' end")
 def c01_e2e(tier, rng):
     n = 1500 if tier == "quick" else 60000
     base = rng.randrange(10 ** 9)
